@@ -29,7 +29,7 @@ RULE = ('family = one dataset src.map(u0).map(fresh).cache(keep_mem_free=K) (fre
         'call counter per index, memory state. Non-trivial = at least one access hit '
         'an already frozen example or the memory fault fired; distinct = distinct '
         '(dataset, history).')
-PROBES = ['eager_cache_of_duplicate_keys_without_length', 'two_clients_same_index_at_once', 'held_iterator_met_entry_cached_meanwhile', 'second_cache_created_after_first_crossed',
+PROBES = ['concurrent_access_by_key', 'eager_cache_of_duplicate_keys_without_length', 'two_clients_same_index_at_once', 'held_iterator_met_entry_cached_meanwhile', 'second_cache_created_after_first_crossed',
           'cache_hit_after_threshold', 'cache_miss_after_threshold',
           'negative_index_hits_positive_entry', 'key_hits_index_entry',
           'copy_shares_cache', 'prefetch_worker_filled_cache',
@@ -491,16 +491,19 @@ def _concurrent_get(case, ds, ctx, m, i, seed, fired, trace):
     sim.seq = ctx._seq
     got = []
 
-    def client():
+    # with keys: one client (or both) asks by key
+    by_key = [case['source'] == 'dict' and bool((seed >> b_) & 1) for b_ in (3, 4)]
+
+    def client(c=0):
         try:
-            got.append(('ok', W.norm(ds[i])))
+            got.append(('ok', W.norm(ds['k%d' % i] if by_key[c] else ds[i])))
         except Exception as e:
             got.append(('exc', '%s: %s' % (type(e).__name__, str(e)[:80])))
 
     try:
         with S.simulation(sim):
             try:
-                ts = [threading.Thread(target=client) for _ in range(2)]
+                ts = [threading.Thread(target=client, args=(c,)) for c in range(2)]
                 for t in ts:
                     t.start()
                 for t in ts:
@@ -512,6 +515,8 @@ def _concurrent_get(case, ds, ctx, m, i, seed, fired, trace):
         ctx._seq = sim.seq
         ctx.sim = None
     m.probes['two_clients_same_index_at_once'] = 1
+    if any(by_key):
+        m.probes['concurrent_access_by_key'] = 1
     fired['concurrent_same_index'] += 1
     if sim.failure:
         m.bad('hang', 'hang:concurrent_same_index', 'two concurrent accesses: %s' % sim.failure)
